@@ -795,7 +795,8 @@ func (r *reader) read(src []byte) {
 			}
 		}
 		if r.one && 0 < len(r.code) {
-			if b == ')' {
+			// The closing delimiter is part of the form just read.
+			if b == ')' || b == '"' || b == '|' {
 				r.pos++
 			}
 			return
